@@ -235,7 +235,7 @@ fn zero_right_pad_integer_ascii_digits(
 
     if let Some(frac_zero_count) = target_scale.and_then(NonZeroUsize::new) {
         // add one char for '.' if target_scale is not zero
-        fraction_zero_char_count = frac_zero_count.get() + 1;
+        fraction_zero_char_count = frac_zero_count.get().saturating_add(1);
         // indicate we'll need to add a decimal point
         decimal_place_idx = Some(digits.len() + integer_zero_count);
     } else {
@@ -243,14 +243,16 @@ fn zero_right_pad_integer_ascii_digits(
         decimal_place_idx = None;
     }
 
-    let total_additional_zeros = integer_zero_count.saturating_add(fraction_zero_char_count);
+    // the limit is on the number of padded zeros: the decimal point is not one of them
+    let total_padded_zeros = integer_zero_count.saturating_add(target_scale.unwrap_or(0));
 
     // no padding if out of bounds (the limit applies when a precision was requested;
     // otherwise the trailing-zero threshold above has already decided)
-    if target_scale.is_some() && total_additional_zeros > FMT_MAX_INTEGER_PADDING {
+    if target_scale.is_some() && total_padded_zeros > FMT_MAX_INTEGER_PADDING {
         return;
     }
 
+    let total_additional_zeros = integer_zero_count + fraction_zero_char_count;
     digits.resize(digits.len() + total_additional_zeros, b'0');
     if let Some(decimal_place_idx) = decimal_place_idx {
         digits[decimal_place_idx] = b'.';
